@@ -165,7 +165,20 @@ const SCHEMAS = [
   S('plus', 'o[f()] ??= @X@ + @Y@'),
   S('plus', 'i++ + @Y@'),
   S('plus', '@X@ + +@Y@'),
-  S('plus', '@X@ + -@Y@')
+  S('plus', '@X@ + -@Y@'),
+  // optional chains under delete (must stay references) and optional calls that carry arguments
+  S('chain', 'delete s?.trim().p'),
+  S('chain', 'delete (s?.trim().p)'),
+  S('chain', 'delete (o?.q.concat(@X@).p)'),
+  S('chain', 'delete ((o?.q.concat(@X@))).p'),
+  S('chain', 'delete o[s?.trim()]'),
+  S('chain', 'g?.(@X@).trim()'),
+  S('chain', 'g?.(@X@, ...arr).concat(@Y@)'),
+  S('chain', 'o?.m?.(f(), k).concat(@X@)'),
+  S('chain', '(g())?.(@X@).trim()'),
+  S('chain', 'o.m?.(@X@).trim()'),
+  S('chain', 'o?.[k]?.(@X@)?.trim()'),
+  S('chain', 'new X(@X@)?.q.trim()')
 ]
 
 // ---- G3 expression contexts ------------------------------------------------------------------------
